@@ -394,3 +394,42 @@ B('c16i_mixin_serializer_mismatch', ['C16'], 'R16.b',
   (CK, _CLS_HEAD, 'class _Codec(object):\n    serialization_method = json\n'),
   (CK, _UNSER_HEAD, '\nclass JSONCookie(_Codec, SecureCookie):\n    serialization_method = pickle\n\n' + _UNSER_HEAD),
   (CK, "        ret = cls.serialization_method.dumps(value)\n", "        ret = json.dumps(value)\n"))
+
+# ---------------------------------------------------------------- R16.h: a modified cookie is written back (should_save / constructor overrides)
+_SM = '    serialization_method = json\n'
+_INIT3 = '    def __init__(self, data=None, secret_key=None, new=True):\n        super(JSONCookie, self).__init__(data, secret_key, new)\n'
+_SHOULD = '\n    @property\n    def should_save(self):\n'
+
+
+def _jc(body, *more):
+    return ((CK, _SM, _SM + '\n' + body),) + more
+
+
+B('c16i_should_save_shallow_snapshot', ['C16'], 'R16.h',
+  *_jc(_INIT3 + '        self._client_state = dict(self)\n' + _SHOULD + '        return self.modified and self != self._client_state\n'))
+B('c16i_should_save_copy_method_snapshot', ['C16'], 'R16.h',
+  *_jc(_INIT3 + '        self._sent = self.copy()\n' + _SHOULD + '        unchanged = self == self._sent\n        return self.modified and not unchanged\n'))
+B('c16i_should_save_snapshot_is_the_data', ['C16'], 'R16.h',
+  *_jc(_INIT3 + '        self._seen = data or {}\n' + _SHOULD + '        if not self.modified:\n            return False\n        return dict(self) != self._seen\n'))
+B('c16i_should_save_comprehension_snapshot', ['C16'], 'R16.h',
+  *_jc(_INIT3 + '        self._held = {k: v for k, v in self.items()}\n' + _SHOULD + '        return self.modified and self._held != dict(self)\n'))
+B('c16i_should_save_never', ['C16'], 'R16.h', *_jc('    should_save = False\n'.replace('    should_save = False\n', '    @property\n    def should_save(self):\n        return False\n')))
+B('c16i_should_save_falls_off', ['C16'], 'R16.h', *_jc('    @property\n    def should_save(self):\n        if self.modified:\n            return True\n'))
+B('c16i_constructor_drops_key', ['C16'], 'R16.h',
+  *_jc('    def __init__(self, data=None, secret_key=None, new=True):\n        super(JSONCookie, self).__init__(data, None, new)\n'))
+B('c16i_constructor_adds_data', ['C16'], 'R16.h',
+  *_jc(_INIT3 + "        self['_seen'] = time.time()\n"))
+B('c16i_constructor_base_call_conditional', ['C16'], 'R16.h',
+  *_jc('    def __init__(self, data=None, secret_key=None, new=True):\n        if data:\n            SecureCookie.__init__(self, data, secret_key, new)\n'))
+T('c16i_should_save_deep_snapshot', ['C16'],
+  (CK, 'import base64\n', 'import base64\nimport copy\n'),
+  *_jc(_INIT3 + '        self._client_state = copy.deepcopy(dict(self))\n' + _SHOULD + '        return self.modified and self != self._client_state\n'))
+T('c16i_should_save_serialised_snapshot', ['C16'],
+  *_jc(_INIT3 + '        self._client_state = json.dumps(dict(self), sort_keys=True)\n' + _SHOULD +
+       '        return self.modified and json.dumps(dict(self), sort_keys=True) != self._client_state\n'))
+T('c16i_should_save_restated', ['C16'], *_jc('    @property\n    def should_save(self):\n        return self.modified\n'))
+T('c16i_should_save_delegated', ['C16'], *_jc('    @property\n    def should_save(self):\n        return super(JSONCookie, self).should_save\n'))
+T('c16i_constructor_pass_through', ['C16'],
+  *_jc('    def __init__(self, *args, **kwargs):\n        super(JSONCookie, self).__init__(*args, **kwargs)\n        self._loaded_at = None\n'))
+T('c16i_constructor_unbound_base_call', ['C16'],
+  *_jc('    def __init__(self, data=None, secret_key=None, new=True):\n        SecureCookie.__init__(self, data, secret_key=secret_key, new=new)\n        self._note = None\n'))
